@@ -31,7 +31,8 @@ REQUIRED = ["packet_ins", "buffered", "unbuffered_pool_full", "released_by_packe
             "released_by_flow_mod", "released_by_rejected_flow_mod", "flow_mod_modify_with_buffer", "rebuffered_during_release", "stale_uses",
             "bogus_uses", "truncated",
             "ids_reused_after_release", "advertised_buffer_counts_read",
-            "packet_outs_with_buffer_id_and_data", "stale_or_bogus_ids_in_flow_mods"]
+            "packet_outs_with_buffer_id_and_data", "stale_or_bogus_ids_in_flow_mods",
+            "padded_frames_missing_the_table"]
 TIMEOUT = {"quick": 900, "thorough": 7200}
 
 NPORTS = 4
@@ -194,6 +195,15 @@ def run_history (case, rep):
       else:
         dst = CTRL_DST[op[3]]; limit = CTRL_MAXLEN[op[3]]; reason = 1
       raw = frame(uid, dst, size)
+      padded = False
+      if k == "miss" and uid % 6 == 1:
+        # a short IPv4 frame padded to the Ethernet minimum, as it comes off
+        # a wire: the frame the packet-in describes is the frame received,
+        # padding included (total length, the prefix that travels)
+        raw = frame(uid, dst, 1)
+        raw = raw + b"\0" * max(0, 60 - len(raw))
+        padded = True
+        rep.count("padded_frames_missing_the_table")
       try:
         sw.inject(in_port, raw)
       except Exception:
@@ -210,6 +220,15 @@ def run_history (case, rep):
                                            [p for p, _ in out]))
         return True
       if not judge_pin(pins[0], raw, in_port, reason, limit): return True
+      if padded and pins[0]["buffer_id"] != NO_BUFFER:
+        # (dropped again at once through its buffer id: how the switch would
+        #  send a padded frame on is C12's business)
+        bid = pins[0]["buffer_id"]
+        sw.feed(ofwire.enc_message("packet_out", dict(
+          xid=xid, buffer_id=bid, in_port=in_port, actions=[], data=b"")))
+        outstanding.pop(bid, None); released.append(bid)
+        if sw.take_out() or sw.take_bytes():
+          fire("dropping a buffered packet produced output", ""); return True
     elif k in ("po", "fm", "fmrej", "stale", "bogus"):
       acts = ACTS[op[2] % len(ACTS)]
       both = False
